@@ -433,6 +433,10 @@ def extract(repo):
     s, n23 = re.subn(r'^([ \t]*)((?:self\.)?[A-Za-z_][A-Za-z0-9_]*(?:\.[A-Za-z_][A-Za-z0-9_]*)*) (\||&)= ([^;\n]+);[ \t]*$',
                      lambda q: '%s%s = crate::vs::%s(%s, %s);' % (q.group(1), q.group(2), 'vs_or' if q.group(3) == '|' else 'vs_and', q.group(2), q.group(4)), s, flags=re.M)
     counts['X23'] = n23
+    # X24: reference patterns (`Some(&x)`) are outside Verus; `if let Some(&x) = E {` binds a copy of the referent, which is
+    # what `if let Some(x__r) = E { let x = *x__r;` does (the pattern only compiles for Copy referents)
+    s, n24 = re.subn(r'\b(if|while) let Some\(&([a-z_][A-Za-z0-9_]*)\) = ([^{};]+?) \{', r'\1 let Some(\2__r) = \3 { let \2 = *\2__r;', s)
+    counts['X24'] = n24
     s, dn = copy_display_impls(s)
     counts['X22'] = len(dn)
     return s, counts
